@@ -4,6 +4,7 @@ import (
 	"fmt"
 	"go/token"
 	"go/types"
+	"regexp"
 	"strings"
 
 	"golang.org/x/tools/go/ssa"
@@ -172,6 +173,9 @@ func (u *Unit) call(s *State, c *ssa.CallCommon, instr *ssa.Call, k func(*State)
 	// unknown: havoc
 	u.frameClosed(s, name, site, pos)
 	if !u.callIsPure(c) {
+		if u.fc != nil && u.fc.Pure {
+			panic(abortUnit{"declared pure but calls " + name + ", which may write memory"})
+		}
 		u.havocHeaps(s, "call")
 		u.havocGhost(s)
 		u.havocClosureCells(s, c)
@@ -348,9 +352,16 @@ func (u *Unit) applyContract(s *State, fc *FuncContract, callee *ssa.Function, n
 		if err != nil {
 			panic(abortUnit{fmt.Sprintf("%s:%d: %v", c.File, c.Line, err)})
 		}
-		u.frameWrite(s, pt, short, ord, pos)
+		flabel := short
+		if site != nil && site.Parent() != u.fn {
+			flabel = "in." + u.fnShort(site.Parent()) + "." + short
+		}
+		u.frameWrite(s, pt, flabel, ord, pos)
 	}
 	if !fc.Pure {
+		if u.fc != nil && u.fc.Pure {
+			panic(abortUnit{"declared pure but calls " + name + ", which is not pure"})
+		}
 		u.havocHeaps(s, "call")
 		u.havocGhost(s)
 	}
@@ -395,6 +406,9 @@ func (u *Unit) applyContract(s *State, fc *FuncContract, callee *ssa.Function, n
 	}
 	for _, c := range fc.Clauses {
 		if c.Kind == "ensures" || (c.Kind == "assume" && fc.Lib) {
+			if !ghostsKnown(c.Expr, s) {
+				continue // mentions ghost state private to the callee
+			}
 			g, err := mk(s, pre, extra).formula(c.Expr)
 			if err != nil {
 				panic(abortUnit{fmt.Sprintf("%s:%d: %v", c.File, c.Line, err)})
@@ -583,9 +597,6 @@ func (u *Unit) appendOp(s *State, c *ssa.CallCommon, instr *ssa.Call) {
 	}
 }
 
-// sliceInvAppend is a hook for element-wise slice invariants (see contracts: slice-invariant); filled in by exprs.go.
-func (u *Unit) sliceInvAppend(s *State, c *ssa.CallCommon, instr *ssa.Call, elems []string, known bool) {}
-
 // atCall emits the unit's at-call obligations for a call to the named callee.
 func (u *Unit) atCall(s *State, name string, args []Term, site ssa.Instruction, pos token.Pos) {
 	if u.fc == nil || site == nil || site.Parent() != u.fn {
@@ -607,4 +618,15 @@ func (u *Unit) atCall(s *State, name string, args []Term, site ssa.Instruction, 
 		n := fmt.Sprintf("%s.at.%s#%d", labelWithFn(c.Label, u.fnShort(u.fn)), shortCallee(name), u.ordinal(site))
 		u.oblige(s, n, c.Props, "at-call", g, pos)
 	}
+}
+
+var ghostRefRe = regexp.MustCompile(`\$[A-Za-z0-9_]+`)
+
+func ghostsKnown(expr string, s *State) bool {
+	for _, g := range ghostRefRe.FindAllString(expr, -1) {
+		if _, ok := s.ghost[g]; !ok {
+			return false
+		}
+	}
+	return true
 }
